@@ -4,7 +4,7 @@
 EXTENDS Chunk
 
 P0 == [hasmsa |-> FALSE, msa |-> 0, buf |-> 0, h0 |-> 0, h8 |-> 0, p |-> 5, lb |-> 100,
-       excl |-> <<>>, sepv |-> <<250, 1000>>, sepl |-> <<10000>>, minokta |-> 2, minpts |-> 3]
+       excl |-> <<>>, sepv |-> <<250, 1000>>, sepl |-> <<10000>>, minokta |-> 2, minpts |-> 3, pad |-> 10]
 
 LatticeA == {1000, 1200, 3000}
 LatticeB == {900, 1000, 1200, 9900, 10100}
